@@ -1392,7 +1392,7 @@ class VarSub(Vars):
 
     def get(self):
 
-        return np.array(super().get()).reshape(self.shape)[self.indices]
+        return np.array(super().get()).reshape(-1)[self.indices]
 
     def __getitem__(self, item):
 
